@@ -5,7 +5,7 @@ import attr
 
 from harness import tlc
 from harness.common import CANARY_BASE, Report, import_hpl, split_canaries, tier
-from harness.corpus import accepted
+from harness.corpus import accepted, accepted_families
 from harness.project import project
 
 ALPHA = ['v', 'x', 'A', 'f', 'a', 'zz']
@@ -68,6 +68,9 @@ def run(replay=None):
     thorough = tier() == 'thorough'
     asts, stats = accepted(thorough, limit=None if thorough else 12000)
     rep.add_tlc(stats)
+    fams, st2 = accepted_families(['slots', 'quants', 'funs', 'incl', 'alias'], cap=None if thorough else 500, salt='c15f')
+    rep.add_tlc(st2)
+    asts = asts + fams
     events, info = [], {}
     eid = 0
     slot_cov = {}
